@@ -339,6 +339,11 @@ def handle (toks : List String) (impl : String) : Verdict :=
                   else s!"{op}: the built object and its decoded twin answer an accessor differently")
           else if vexp.isSome ∧ vexp ≠ some "na" ∧ valid ≠ vexp ∧ !subsec then
             some s!"{op}: validation says {valid.getD "?"} where the inputs demand {vexp.getD "?"}"
+          -- `process` (run only for windows that hold the wall clock) also checks the content against the EE
+          -- certificate the builder made for it: what the builder produced from conforming inputs must pass
+          else if valid = some "ok" ∧ vexp = some "ok" ∧ tokOf r "proc=" = some "err" then
+            some s!"{op}: process() rejects the object the library's own builder made from conforming inputs although validate_at accepts it"
+          else if tokOf r "proc=" = some "panic" then some s!"{op}: process() panicked"
           else none
         else if head = "bad-op" then none
         else some "unreadable result",
